@@ -418,6 +418,65 @@ fn run_evaluation_order(cx: &mut CaseCx, _case: &Value) {
   cx.outcome("evaluation is a function of (point, tag)");
 }
 
+
+/// One blinded request, one blinding factor, used MORE THAN ONCE: the same request evaluated under several
+/// tags and by several servers, each answer unblinded with the same factor (twice, in both orders) - every
+/// unblinded point equals the server's evaluation of the unblinded input point, every finalised output equals
+/// the one a fresh single-use exchange gives.
+fn run_blinding_reuse(cx: &mut CaseCx, _case: &Value) {
+  cx.entropy(980);
+  let tags = [0u8, 1, 7];
+  let servers: Vec<pp::Server> = (0..2).map(|_| pp::Server::new(tags.to_vec()).expect("server")).collect();
+  for input in [&b"reused blinding"[..], b"", b"another input"] {
+    // reference: single-use exchanges
+    let mut want: HashMap<(usize, u8), [u8; 32]> = HashMap::new();
+    for (si, s) in servers.iter().enumerate() {
+      for &t in &tags {
+        if let Ok((_, _, fin)) = exchange(s, t, input, &Blind::Fresh(0), false) {
+          want.insert((si, t), fin);
+        }
+      }
+    }
+    let (blinded, r) = pp::Client::blind(input);
+    let mut order: Vec<(usize, u8)> = vec![];
+    for si in 0..servers.len() {
+      for &t in &tags {
+        order.push((si, t));
+      }
+    }
+    // every (server, tag) answered for the SAME blinded request, unblinded with the SAME factor; then again reversed
+    for pass in 0..2 {
+      let ord: Vec<(usize, u8)> = if pass == 0 { order.clone() } else { order.iter().rev().cloned().collect() };
+      for (k, (si, t)) in ord.iter().enumerate() {
+        cx.eval();
+        cx.nontrivial(fnv_str(&format!("{}|{}|{}|{}", hexs(input), pass, si, t)));
+        let ev = match guard(|| servers[*si].eval(&blinded, *t, k % 2 == 0)) {
+          Ok(Ok(ev)) => ev,
+          _ => {
+            cx.viol("C12/exchange-failed", format!("eval for tag {} failed", t), json!({"tag": t}));
+            return;
+          }
+        };
+        let un = match guard(|| pp::Client::unblind(&ev.output, &r)) {
+          Ok(u) => u,
+          Err(p) => {
+            cx.viol("C12/unblind-panicked", p, json!({"use_number": pass * order.len() + k + 1}));
+            return;
+          }
+        };
+        let mut fin = [0u8; 32];
+        pp::Client::finalize(input, *t, &un, &mut fin);
+        if Some(&fin) != want.get(&(*si, *t)) {
+          cx.viol("C12/blinding-factor-single-use", format!("use number {} of one blinding factor (the same blinded request answered by server {} under tag {}): the unblinded / finalised result differs from a single-use exchange{}", pass * order.len() + k + 1, si, t, if un.as_bytes() == &[0u8; 32] { " (the unblinded point is the neutral element)" } else { "" }), json!({"use_number": pass * order.len() + k + 1, "server": si, "tag": t, "input": hexs(input)}));
+          return;
+        }
+        cx.count("reused_blinding_ok", 1);
+      }
+    }
+  }
+  cx.outcome("blinding reuse");
+}
+
 /// unbounded repetitions (bounded here: 300) of one request on one thread stay fresh
 fn run_freshness(cx: &mut CaseCx, _case: &Value) {
   cx.entropy(950);
@@ -587,6 +646,14 @@ pub fn spec() -> PropSpec {
         min_counts: &[("stable_outputs", 1500)],
       },
       Check { name: "evaluation-order", rule: "requests = 6 points (two client requests, an earlier OUTPUT sent back as a request, the output of that, the output under another tag, the neutral element) x 3 tags: for EVERY ordered pair of requests (first with and without proof) the second answer equals the one a fresh clone gives (no memo keyed on too little, no state left by a request)", gen: |_| vec![json!({})], run: run_evaluation_order, min_counts: &[("ordered_pairs", 500)] },
+      Check {
+        name: "process-histories",
+        rule: "clients and servers are separate PROCESSES: 12 fresh processes that each perform a different first operation (nothing, blind, finalize, eval, verifiable eval, verify, local randomness, share, report, adss share, GGM eval, field inversion) and then the same observation script under the same entropy: blinded requests, evaluations, unblinded and finalised outputs, proofs, public key and GGM values are identical in all of them",
+        gen: |_| vec![json!({})],
+        run: |cx, _| crate::probe::process_order_check(cx, "C12", &|l: &str| l.starts_with("blinded") || l.starts_with("evaluation") || l.starts_with("proof") || l.starts_with("public key") || l.starts_with("ggm")),
+        min_counts: &[("process_histories_agree", 11)],
+      },
+      Check { name: "blinding-reuse", rule: "ONE blinded request and ONE blinding factor used 12 times per input (2 servers x 3 tags, then the same in reverse order; alternately with a proof): every unblinded answer finalises to the output of a fresh single-use exchange with that server and tag (3 inputs incl. empty)", gen: |_| vec![json!({})], run: run_blinding_reuse, min_counts: &[("reused_blinding_ok", 36)] },
       Check { name: "repeated-requests", rule: "300 consecutive requests for two alternating inputs on one thread under fresh entropy: all blinded points pairwise distinct", gen: |_| vec![json!({})], run: run_freshness, min_counts: &[("fresh_requests", 300)] },
       Check {
         name: "finalize-sensitivity",
